@@ -75,3 +75,17 @@ where
         _ = self.cons.push(data).await;
     }
 }
+
+#[cfg(all(transparencies_stretto_verif, feature = "sync"))]
+impl<S> RingStripe<S> {
+    pub(crate) fn verif_data(&self) -> Vec<u64> {
+        self.data.lock().clone()
+    }
+}
+
+#[cfg(all(transparencies_stretto_verif, feature = "async"))]
+impl<S> AsyncRingStripe<S> {
+    pub(crate) fn verif_data(&self) -> Vec<u64> {
+        self.data.lock().clone()
+    }
+}
